@@ -24,9 +24,17 @@ HARNESSES.append(dict(
     assumptions=["eph_cache: psEccGenKey/psEccCopyKey/psEccClearKey are logging stubs with arbitrary success/failure; psDiffMsecs returns an arbitrary non-negative elapsed time; cache RI: eccPrivKeyUse == 0 <=> no key allocated"],
     unwindset={"vf_is_held:/for \\(i = 0/": 5},
     cases=[dict(name="any_state", defs={})]))
+HARNESSES.append(dict(
+    name="prng_lock", src="prng_lock.c", checks=[],
+    renames={"crypto/prng/prng.c": ["psGetPrng"]},
+    guards={"crypto/prng/prng.c": {"gMatrixPrng": "prngLock"}},
+    functions=["psGetPrngLocked"], sources=["crypto/prng/prng.c"],
+    assumptions=["prng_lock: psGetPrng is a stub (checks the lock when handed the global state); mutex functions replaced by the lock ghost"],
+    undefined_ok="*", unwind=12, unwindset={"vf_is_held:/for \\(i = 0/": 5},
+    cases=[dict(name="any", defs={})]))
 PROPERTY = dict(level='other',
     claim='Lock discipline of the session cache operations for all inputs and paths: every access to g_sessionTable / g_sessionChronList happens under g_sessionTableLock, one critical section per operation, no relock, no nested locks, lock released on every return - a sufficient condition for race freedom and serializability of these operations.',
-    bounds='matrixRegisterSession, matrixResumeSession, matrixUpdateSession, matrixClearSession; matrixUnlockSessionTicket, matrixCreateSessionTicket, matrixSslLoadSessionTicketKeys, matrixSslDeleteSessionTicketKey (key list / inUse under g_sessTicketLock); matrixSslGenEphemeralEcKey (cached ECDHE key under keys->cache.lock, reuse within usage/lifetime limits, caller gets a private copy)',
-    outside='interleavings cannot be encoded (CBMC aborts on this code with concurrency); PRNG and CRL cache are not instrumented',
+    bounds='matrixRegisterSession, matrixResumeSession, matrixUpdateSession, matrixClearSession; matrixUnlockSessionTicket, matrixCreateSessionTicket, matrixSslLoadSessionTicketKeys, matrixSslDeleteSessionTicketKey (key list / inUse under g_sessTicketLock); matrixSslGenEphemeralEcKey (cached ECDHE key under keys->cache.lock, reuse within usage/lifetime limits, caller gets a private copy); psGetPrngLocked (global PRNG state under prngLock)',
+    outside='interleavings cannot be encoded (CBMC aborts on this code with concurrency); the CRL cache is not instrumented; psInitPrng/psClosePrng at library open/close run single-threaded by contract',
     explanation='Sequential lockset check decided by CBMC: derive.py wraps every textual use of the shared objects with a guard that asserts the designated mutex is held (ghost lock state in psLockMutex/psUnlockMutex stubs); assertions cover all paths of each operation from an arbitrary table state.',
     assumptions=[])
